@@ -8,7 +8,8 @@ import (
 
 func TestReplay(t *testing.T) {
 	verif.ReplayMain(map[string]func(){
-		"HarnessSequence": HarnessSequence,
-		"HarnessShapes":   HarnessShapes,
+		"HarnessOverlappingCalls": HarnessOverlappingCalls,
+		"HarnessSequence":         HarnessSequence,
+		"HarnessShapes":           HarnessShapes,
 	})
 }
